@@ -152,6 +152,18 @@ theorem vadd_mem (a b : List ℝ) (x : ℝ) (hx : x ∈ Num.vadd a b) :
       · obtain ⟨ai, ha, bi, hb, e⟩ := ih bs h
         exact ⟨ai, by simp [ha], bi, by simp [hb], e⟩
 
+theorem diss3_length (A : ℝ) (b s c : List ℝ) :
+    (diss3 A b s c).length = min b.length (min s.length c.length) := by
+  induction b generalizing s c with
+  | nil => simp [diss3]
+  | cons b0 bs ih =>
+    cases s with
+    | nil => simp [diss3]
+    | cons s0 ss =>
+      cases c with
+      | nil => simp [diss3]
+      | cons c0 cs => simp [diss3, ih, Nat.succ_min_succ]
+
 -- ---------------------------------------------------------------- masses_by_diameter
 
 theorem vmul_scaled_sum (a b : ℝ) (yk M : List ℝ) :
